@@ -123,21 +123,31 @@ Definition nonempty_s (s : string) : bool := match s with EmptyString => false |
 (* a piece of the command line and whether it is shell-quoted when a shell is used *)
 Definition piece := (string * bool)%type.
 
-(* Builder.generate_arg *)
+(* an array item that generates an argument when it is bound on its own with a binding without prefix
+   (generate_arg: `case bool() | None: return []`) *)
+Definition printable (it : sval) : bool := match it with VNull | VBool _ => false | _ => true end.
+
+(* Builder.generate_arg, together with the one-by-one binding of the items of an array that bind_input sets up when the
+   array's binding has neither itemSeparator nor valueFrom.  On a list, in cwltool's order of tests:
+     itemSeparator (non-empty) and a non-empty list -> the joined str() of ALL items (True, None included)
+     valueFrom present                             -> [prefix] + the str() of ALL items   (also for an EMPTY list)
+     prefix and a non-empty list                   -> [prefix]; the items, each with a fresh binding: a boolean or
+                                                      null item generates nothing
+     otherwise                                     -> nothing *)
 Definition spec_generate (b : binding) (v : value) : list string :=
   let pre := match b_prefix b with Some p => if nonempty_s p then [p] else [] | None => [] end in
   let one (s : string) :=
     if b_sep b then (match b_prefix b with Some p => [p] | None => [] end) ++ [s]
     else [match b_prefix b with Some p => p ^^ s | None => s end] in
+  let has_vf := match b_vf b with VfNone => false | _ => true end in
   match v with
   | Arr l =>
-      match l with
-      | [] => []                                   (* "prefix and value": an empty array gives nothing *)
-      | _ :: _ =>
-          match b_isep b with
-          | Some s => if nonempty_s s then one (join s (map repr l)) else pre
-          | None => pre ++ map repr l              (* the items are bound one by one after the prefix *)
-          end
+      match l, b_isep b with
+      | _ :: _, Some s =>
+          if nonempty_s s then one (join s (map repr l))
+          else if has_vf then pre ++ map repr l else pre
+      | _ :: _, None => if has_vf then pre ++ map repr l else pre ++ map repr (filter printable l)
+      | [], _ => if has_vf then pre else []
       end
   | Sc VNull => []
   | Sc (VBool true) => pre
@@ -145,7 +155,6 @@ Definition spec_generate (b : binding) (v : value) : list string :=
   | Sc s => one (repr s)
   end.
 
-(* sort keys: [position, index] for arguments, [position, name] for inputs *)
 (* read off cwltool (Builder.bind_input, instrumented): an array WITH a binding of its own has key [pos, name] and its
    items [pos, name, n, itempos, name, name] -- they sort right behind it, in index order, whatever itempos is, so
    the group is ONE entry here (KIn); the items of an array WITHOUT a binding of its own have key
@@ -194,7 +203,7 @@ Definition spec_pre (b : binding) : list string :=
 Definition spec_gen_pieces (q : bool) (b : binding) (v : value) : list piece :=
   if items_fresh b v then
     match v with
-    | Arr l => map (fun s => (s, q)) (spec_pre b) ++ map (fun s => (s, true)) (map repr l)
+    | Arr l => map (fun s => (s, q)) (spec_pre b) ++ map (fun s => (s, true)) (map repr (filter printable l))
     | Sc _ => []
     end
   else map (fun s => (s, q)) (spec_generate b v).
